@@ -40,7 +40,8 @@ JudgeEntry(c, e, x) ==
 (* members where the case has several members to order                       *)
 SameAsSolo(c, e, x, solo) ==
   \/ x = solo
-  \/ /\ Nondet(c)
+  \/ /\ Nondet(c)          \* which member is met first may differ from call to call
      /\ \/ e # "query"
-        \/ x.err.cls = solo.err.cls /\ (x.err.cls # "none" \/ BagMatch(solo.items, x.items))
+        \/ x.err.cls # "none" /\ solo.err.cls # "none"      \* another member may fail first, with another class
+        \/ x.err.cls = "none" /\ solo.err.cls = "none" /\ BagMatch(solo.items, x.items)
 =============================================================================
